@@ -177,27 +177,34 @@ theorem bestSample_mem (dist : K → K) : ∀ (ts : List K) (acc : Option (K × 
         · left; exact List.mem_cons_of_mem _ h1
         · right; exact ⟨a, ha, h2⟩
 
-/-- one halving round keeps the candidate in [0,1] once it is, and moves −1 (no sample) into [0,1] -/
+/-- one halving round keeps the candidate in [0,1] -/
 theorem refine_range (dist : K → K) (prec : K) (hp : 0 < prec) (st : K × Option K)
-    (h : (0 ≤ st.1 ∧ st.1 ≤ 1) ∨ (st.1 = -1 ∧ st.2 = none)) :
+    (h : 0 ≤ st.1 ∧ st.1 ≤ 1) :
     0 ≤ (refine dist prec st).1 ∧ (refine dist prec st).1 ≤ 1 := by
   have hlow : ∀ b : K, (0 : K) ≤ (if b - prec < 0 then 0 else b - prec) := by
     intro b; split_ifs with h1 <;> [exact le_refl _; exact le_of_not_gt h1]
-  have hup0 : ∀ b : K, -1 ≤ b → (0 : K) ≤ (if b + prec > 1 then 1 else b + prec) ∨ True := fun _ _ => Or.inr trivial
   unfold refine
   simp only
-  rcases h with ⟨h0, h1⟩ | ⟨hm, hn⟩
-  · have hl1 : (if st.1 - prec < 0 then (0 : K) else st.1 - prec) ≤ 1 := by split_ifs <;> linarith
-    have hu0 : (0 : K) ≤ (if st.1 + prec > 1 then (1 : K) else st.1 + prec) := by split_ifs <;> linarith
-    have hu1 : (if st.1 + prec > 1 then (1 : K) else st.1 + prec) ≤ 1 := by
-      split_ifs with hh <;> [exact le_refl _; exact le_of_not_gt hh]
-    split_ifs <;> simp_all
-  · -- no sample at all: bestDist = inf, so `lower` (= 0) is taken
-    rw [hn, hm]
-    have e : (if (-1 : K) - prec < 0 then (0 : K) else -1 - prec) = 0 := by
-      rw [if_pos]; linarith
-    simp only [e]
-    split_ifs <;> simp_all <;> (try constructor) <;> linarith
+  obtain ⟨h0, h1⟩ := h
+  have hl1 : (if st.1 - prec < 0 then (0 : K) else st.1 - prec) ≤ 1 := by split_ifs <;> linarith
+  have hu0 : (0 : K) ≤ (if st.1 + prec > 1 then (1 : K) else st.1 + prec) := by split_ifs <;> linarith
+  have hu1 : (if st.1 + prec > 1 then (1 : K) else st.1 + prec) ≤ 1 := by
+    split_ifs with hh <;> [exact le_refl _; exact le_of_not_gt hh]
+  split_ifs <;> simp_all
+
+theorem bestSample_some (dist : K → K) : ∀ (ts : List K) (acc : Option (K × K)),
+    (ts ≠ [] ∨ acc ≠ none) → bestSample dist ts acc ≠ none := by
+  intro ts
+  induction ts with
+  | nil => intro acc h; rcases h with h | h; exact absurd rfl h; simpa [bestSample] using h
+  | cons t rest ih =>
+    intro acc _
+    cases acc with
+    | none => simp only [bestSample]; exact ih _ (Or.inr (by simp))
+    | some b =>
+      obtain ⟨bt, bd⟩ := b
+      simp only [bestSample]
+      split_ifs <;> exact ih _ (Or.inr (by simp))
 
 theorem precisions_pos : ∀ p ∈ (precisions : List K), 0 < p := by
   intro p hp
@@ -205,38 +212,38 @@ theorem precisions_pos : ∀ p ∈ (precisions : List K), 0 < p := by
   obtain ⟨k, _, rfl⟩ := hp
   positivity
 
-/-- **the cubic's lookup answers in [0,1]** for every list of sample parameters in [0,1] (even an empty one)
-    and every distance function -/
-theorem cubic_tOfPoint_range (dist : K → K) (samples : List K) (hs : ∀ t ∈ samples, 0 ≤ t ∧ t ≤ 1) :
+/-- **the cubic's lookup answers in [0,1]** for every non-empty list of sample parameters in [0,1] (the regular sampler
+    always returns at least the parameter 0: C16) and every distance function -/
+theorem cubic_tOfPoint_range (dist : K → K) (samples : List K) (hne : samples ≠ []) (hs : ∀ t ∈ samples, 0 ≤ t ∧ t ≤ 1) :
     0 ≤ cubicTOfPoint dist samples ∧ cubicTOfPoint dist samples ≤ 1 := by
   unfold cubicTOfPoint
   have hstart : ∀ st : K × Option K,
       st = (match bestSample dist samples none with | none => ((-1 : K), (none : Option K)) | some (t, d) => (t, some d)) →
-      (0 ≤ st.1 ∧ st.1 ≤ 1) ∨ (st.1 = -1 ∧ st.2 = none) := by
+      (0 ≤ st.1 ∧ st.1 ≤ 1) := by
     intro st hst
     cases hb : bestSample dist samples none with
-    | none => rw [hb] at hst; right; rw [hst]; exact ⟨rfl, rfl⟩
+    | none => exact absurd hb (bestSample_some dist samples none (Or.inl hne))
     | some r =>
       rw [hb] at hst
-      left
       rcases bestSample_mem dist samples none r hb with h1 | ⟨a, ha, _⟩
       · rw [hst]; exact hs _ h1
       · simp at ha
-  -- fold over at least one precision
-  have hfold : ∀ (ps : List K) (st : K × Option K), (∀ p ∈ ps, 0 < p) → ps ≠ [] →
-      ((0 ≤ st.1 ∧ st.1 ≤ 1) ∨ (st.1 = -1 ∧ st.2 = none)) →
+  have hfold : ∀ (ps : List K) (st : K × Option K), (∀ p ∈ ps, 0 < p) →
+      (0 ≤ st.1 ∧ st.1 ≤ 1) →
       0 ≤ (ps.foldl (fun st p => refine dist p st) st).1 ∧ (ps.foldl (fun st p => refine dist p st) st).1 ≤ 1 := by
     intro ps
     induction ps with
-    | nil => intro st _ hne _; exact absurd rfl hne
+    | nil => intro st _ hst; simpa using hst
     | cons p rest ih =>
-      intro st hp _ hst
+      intro st hp hst
       have h1 := refine_range dist p (hp p (by simp)) st hst
       simp only [List.foldl_cons]
-      cases rest with
-      | nil => simpa using h1
-      | cons q rest' => exact ih _ (fun x hx => hp x (List.mem_cons_of_mem _ hx)) (by simp) (Or.inl h1)
-  apply hfold precisions _ precisions_pos (by simp [precisions, List.range_succ]) (hstart _ rfl)
+      exact ih _ (fun x hx => hp x (List.mem_cons_of_mem _ hx)) h1
+  exact hfold precisions _ precisions_pos (hstart _ rfl)
+
+/-- the pinned loop measured the right-hand candidate at `lower` (F21): with it the upper candidate is never an improvement
+    over the lower one, so refinement only ever moves left — a concrete run where the repaired loop moves right -/
+example : (refine (fun t : ℚ => |t - 3 / 4|) (1 / 100) (1 / 2, some (1 / 4))).1 = 51 / 100 := by decide +kernel
 end cubic
 
 end C15
